@@ -41,6 +41,11 @@ J = "rete::tms::Justification"
 def run(P, R, tier, cfg):
     if TMS not in P.adts:
         raise Broken("anchor missing: " + TMS)
+    have = set(f["name"] for f in P.adts[TMS]["variants"][0]["fields"])
+    need = {"justifications", "fact_justifications", "fact_dependents", "logical_facts", "explicit_facts", "retracted_facts", "next_justification_id"}
+    if not need <= have:
+        # the two index fields have the same type, so their roles cannot be told apart by declaration: fail closed, no guess
+        raise Broken("anchor missing: TruthMaintenanceSystem fields %s (renamed?)" % sorted(need - have))
     for f in P.adts[TMS]["variants"][0]["fields"]:
         if f["vis"] == "pub":
             R.violate("c", "pubfield:%s" % f["name"], "TruthMaintenanceSystem.%s is public" % f["name"])
@@ -162,12 +167,13 @@ def _records(P, R):
     fj = [c for c in fn.calls() if c.name == "std::vec::Vec::push" and "fact_justifications" in fmt_sym(fn.sym_operand(c.args[0]), maxdepth=10) and c.bb in fn.normal_blocks()]
     fd = [c for c in fn.calls() if c.name == "std::vec::Vec::push" and "fact_dependents" in fmt_sym(fn.sym_operand(c.args[0]), maxdepth=10) and c.bb in fn.normal_blocks()]
     lf = [c for (c, s) in A.calls_with_receiver_field(fn, "logical_facts", TMS) if c.name.endswith("HashSet::insert")]
-    idtxt = lambda c, k: fmt_sym(fn.sym_operand(c.args[k]), maxdepth=6)
+    # (`let id = justification.id` after `Justification::logical(.., id)`: read through the constructor)
+    idtxt = lambda c, k: fmt_sym(A.inline_sym(P, fn.sym_operand(c.args[k])), maxdepth=6)
     if ji and A.always_calls_before_return(fn, [c.bb for c in ji]) and idtxt(ji[0], 1) == "self.next_justification_id":
         R.hold("c", "justifications[id] written on every path with id = the counter's value", fn=fn)
     else:
         R.violate("c", "record:justifications", "add_logical_justification does not store the justification under the fresh id on every path", fn)
-    if fj and A.always_calls_before_return(fn, [c.bb for c in fj]) and idtxt(fj[0], 1) == "self.next_justification_id" and "fact_handle" in fmt_sym(fn.sym_operand(fj[0].args[0]), maxdepth=10):
+    if fj and A.always_calls_before_return(fn, [c.bb for c in fj]) and idtxt(fj[0], 1) == "self.next_justification_id" and "fact_handle" in fmt_sym(A.inline_sym(P, fn.sym_operand(fj[0].args[0])), maxdepth=10):
         R.hold("c", "fact_justifications[fact] ∋ id on every path", fn=fn)
     else:
         R.violate("c", "record:fact_justifications", "add_logical_justification does not index the justification under its fact on every path", fn)
